@@ -14,6 +14,7 @@ import DvcData.Model.Store
 import DvcData.Model.Checkout
 import DvcData.Model.Build
 import DvcData.Model.IndexLazy
+import DvcData.Model.PushFetch
 open Lean DvcData
 
 /-! Line-protocol driver: one JSON request per line on stdin, one JSON answer per line on stdout.
@@ -633,6 +634,37 @@ def opLazy (j : Lean.Json) : Except String Lean.Json := do
     | o => throw s!"bad lazy query {o}"
   pure (Lean.Json.mkObj [("results", Lean.Json.arr outs)])
 
+/-! ### storage mappings and push/fetch plans -/
+
+def optStrJ (j : Lean.Json) (f : String) : Option String :=
+  match j.getObjVal? f with | .ok (.str s) => some s | _ => none
+
+def opPushPlan (j : Lean.Json) : Except String Lean.Json := do
+  let idx ← (← arr j "entries").toList.mapM fun e => do
+    let k ← keyOf (← e.getObjVal? "key")
+    pure (k, ({ isdir := boolOf e "isdir", hash := optStrJ e "hash", loaded := boolOf e "loaded" } : IndexLazy.LEntry))
+  let listings ← (← arr j "listings").toList.mapM fun p => do
+    match (← p.getArr?).toList with
+    | [o, es] =>
+      let ents ← (← es.getArr?).toList.mapM fun e => do
+        match (← e.getArr?).toList with
+        | [k, f] => pure (← keyOf k, ← f.getStr?)
+        | _ => throw "listing entry"
+      pure (← o.getStr?, ents)
+    | _ => throw "listing"
+  let load : String → Option IndexLazy.Listing := fun o => (listings.find? (·.1 = o)).map (·.2)
+  let m ← (← arr j "mapping").toList.mapM fun e => do
+    pure (← keyOf (← e.getObjVal? "prefix"),
+      ({ data := optStrJ e "data", cache := optStrJ e "cache", remote := optStrJ e "remote" } : PushFetch.SInfo))
+  let role := match optStrJ j "role" with | some "cache" => PushFetch.Role.cache | some "data" => .data | _ => .remote
+  let storesL ← strList j "stores"
+  let keys ← (← arr j "resolve").toList.mapM keyOf
+  pure (Lean.Json.mkObj [
+    ("plan", Lean.Json.arr (storesL.map fun s => Lean.Json.arr #[.str s, strArr (PushFetch.plan load idx m role s)]).toArray),
+    ("resolve", Lean.Json.arr (keys.map fun k => match PushFetch.resolve m k with
+      | none => Lean.Json.str "StorageKeyError"
+      | some i => Lean.Json.arr #[optS (i.data.map (·.toList)), optS (i.cache.map (·.toList)), optS (i.remote.map (·.toList))]).toArray)])
+
 def kindOf (s : String) : Except String Merge.Kind :=
   match s with
   | "add" => pure .add | "remove" => pure .remove | "change" => pure .change
@@ -675,6 +707,7 @@ def dispatch (j : Json) : Except String Json := do
   | "needs_relink" => opNeedsRelink j
   | "names" => opNames j
   | "lazy" => opLazy j
+  | "push_plan" => opPushPlan j
   | "ping" => pure (Json.mkObj [("pong", true)])
   | op => throw s!"unknown op {op}"
 
